@@ -15,8 +15,6 @@
 EXTENDS Integers, Sequences, FiniteSets, TLC
 
 CONSTANTS Mode,        \* "flows" | "policies"
-          Hub,         \* a Lunar Hub key is configured (the engine keeps the loaded configuration for the hub and the doctor)
-          Managed,     \* LUNAR_MANAGED = "true"
           \* deviations from the code, each refuted by TLC in a run of its own (non-vacuity of AdminI => AdminP)
           ValidateLenient,        \* /validate_flows reads the tree as start-up does (unreadable files skipped)
           LoadSkipsValidation,    \* /load_flows does not validate first
@@ -57,8 +55,10 @@ VARIABLES disk,    \* the operator's tree (flows: path -> tag; policies: [pol, l
           sf,      \* state files of the aggregation plugin
           fault,   \* the proxy's admin API will refuse a call
           upd,     \* the update process
-          out      \* the event handed to the monitor by this step
-ivars == <<disk, eng, up, dead, lock, sf, fault, upd, out>>
+          out,     \* the event handed to the monitor by this step
+          env      \* fixed for the life of the process: [hub: a Lunar Hub key is configured (the engine keeps the loaded
+                   \* configuration for the hub and the doctor), managed: LUNAR_MANAGED = "true"]
+ivars == <<disk, eng, up, dead, lock, sf, fault, upd, out, env>>
 
 Idle == [pc |-> "idle"]
 Tau == [ev |-> "tau"]
@@ -107,26 +107,27 @@ AllEndpoints == DOMAIN (FlowR @@ PolicyR @@ CommonR) \cup {"nonsense"}
 Quiet == upd.pc \in {"idle", "parked"}       \* no update is running right now (none, or one parked at a yield point)
 
 (* ------------------------------------------------------------------ environment *)
-InitI(d0) ==
+InitI(d0, hub, managed) ==
+    /\ env = [hub |-> hub, managed |-> managed]
     /\ disk = d0 /\ eng = (IF Mode = "flows" THEN << >> ELSE NoCfgI) /\ up = FALSE /\ dead = FALSE /\ lock = FALSE
     /\ sf = [discover |-> "absent", remedy |-> "absent"] /\ fault = FALSE /\ upd = Idle
     /\ out = [ev |-> "edit", tree |-> IF Mode = "flows" THEN d0 ELSE (IF d0.pol = "none" THEN << >> ELSE [x \in {"policies.yaml"} |-> d0.pol]),
               obs |-> Obs(d0, eng, 0, FALSE)]
 
 Edit(t) ==     \* the operator rewrites the tree
-    /\ upd.pc = "idle" /\ ~dead
+    /\ upd.pc = "idle"
     /\ disk' = (IF Mode = "flows" THEN t ELSE [disk EXCEPT !.pol = t])
     /\ out' = [ev |-> "edit", tree |-> IF Mode = "flows" THEN t ELSE (IF t = "none" THEN << >> ELSE [x \in {"policies.yaml"} |-> t]),
                obs |-> Obs(disk', eng, 0, FALSE)]
-    /\ UNCHANGED <<eng, up, dead, lock, sf, fault, upd>>
+    /\ UNCHANGED <<env, eng, up, dead, lock, sf, fault, upd>>
 
 StateFile(w, t) ==
-    /\ ~dead /\ Quiet /\ sf' = [sf EXCEPT ![w] = t] /\ out' = [ev |-> "statefile", which |-> w, tag |-> t]
-    /\ UNCHANGED <<disk, eng, up, dead, lock, fault, upd>>
+    /\ Quiet /\ sf' = [sf EXCEPT ![w] = t] /\ out' = [ev |-> "statefile", which |-> w, tag |-> t]
+    /\ UNCHANGED <<env, disk, eng, up, dead, lock, fault, upd>>
 
 ArmFault ==
-    /\ ~dead /\ upd.pc = "idle" /\ ~fault /\ fault' = TRUE /\ out' = [ev |-> "hapfail", nth |-> 1]
-    /\ UNCHANGED <<disk, eng, up, dead, lock, sf, upd>>
+    /\ upd.pc = "idle" /\ ~fault /\ fault' = TRUE /\ out' = [ev |-> "hapfail", nth |-> 1]
+    /\ UNCHANGED <<env, disk, eng, up, dead, lock, sf, upd>>
 
 \* the proxy is asked to register endpoints: with a refusal armed (f) the call fails, or the refused call is one whose
 \* failure the engine ignores, or no call is made at all (nothing to register)
@@ -139,13 +140,13 @@ ManageOutcomes(f) ==
 StartFlows ==
     LET r == Initialize(disk, FALSE) IN      \* initializeStreams without a validation pass
     IF ~r.ok THEN /\ dead' = TRUE /\ out' = [ev |-> "start", ok |-> FALSE, obs |-> Obs(disk, eng, 0, FALSE)]
-                  /\ UNCHANGED <<disk, eng, up, lock, sf, fault, upd>>
+                  /\ UNCHANGED <<env, disk, eng, up, lock, sf, fault, upd>>
     ELSE \E m \in ManageOutcomes(fault) :
             /\ fault' = m.f2
             /\ eng' = r.loaded                  \* published before the proxy is asked
             /\ IF m.failed THEN dead' = TRUE /\ up' = up ELSE up' = TRUE /\ dead' = dead
             /\ out' = [ev |-> "start", ok |-> ~m.failed, obs |-> Obs(disk, r.loaded, 1, m.hf)]
-            /\ UNCHANGED <<disk, lock, sf, upd>>
+            /\ UNCHANGED <<env, disk, lock, sf, upd>>
 
 \* loadDataFromFile on tree d: read + validate, persist as "loaded", build: [ok, disk afterwards, configuration]
 LoadPoliciesFile(d) ==
@@ -158,12 +159,12 @@ LoadPoliciesFile(d) ==
 StartPolicies ==
     LET r == LoadPoliciesFile(disk) IN
     IF ~r.ok THEN /\ dead' = TRUE /\ disk' = r.disk /\ out' = [ev |-> "start", ok |-> FALSE, obs |-> Obs(r.disk, eng, 0, FALSE)]
-                  /\ UNCHANGED <<eng, up, lock, sf, fault, upd>>
+                  /\ UNCHANGED <<env, eng, up, lock, sf, fault, upd>>
     ELSE \E m \in ManageOutcomes(fault) :
             /\ fault' = m.f2 /\ disk' = r.disk
             /\ IF m.failed THEN dead' = TRUE /\ up' = up /\ eng' = eng ELSE up' = TRUE /\ dead' = dead /\ eng' = r.cfg
             /\ out' = [ev |-> "start", ok |-> ~m.failed, obs |-> Obs(r.disk, eng', 1, m.hf)]
-            /\ UNCHANGED <<lock, sf, upd>>
+            /\ UNCHANGED <<env, lock, sf, upd>>
 
 Start == ~up /\ ~dead /\ upd.pc = "idle" /\ (IF Mode = "flows" THEN StartFlows ELSE StartPolicies)
 
@@ -172,14 +173,17 @@ DoctorAns ==
     IF Mode = "flows"
     THEN [k |-> "doctor", parsed |-> TRUE, streams |-> TRUE, haspol |-> FALSE, hasloaded |-> TRUE, md5ok |-> TRUE,
           pol |-> NoCfgI, ext |-> 0,
-          files |-> IF ~Hub THEN << >> ELSE IF DoctorFromDisk THEN [q \in (DOMAIN disk) \ {GP} |-> disk[q]] ELSE eng]
+          files |-> IF ~env.hub THEN << >> ELSE IF DoctorFromDisk THEN [q \in (DOMAIN disk) \ {GP} |-> disk[q]]
+                    \* between the switch and the announcement to the hub (notifyHub) only the flows are listed
+                    ELSE IF upd.pc = "parked" /\ upd.phase = "published" THEN [q \in (DOMAIN eng) \cap FlowPathsI |-> eng[q]]
+                    ELSE eng]
     ELSE [k |-> "doctor", parsed |-> TRUE, streams |-> FALSE, haspol |-> TRUE, hasloaded |-> FALSE, md5ok |-> TRUE,
           pol |-> IF DoctorFromDisk /\ ParsePolicies(disk.pol).ok THEN CfgOf(ParsePolicies(disk.pol)) ELSE eng, ext |-> 0, files |-> << >>]
 
 Get(ep) ==
     LET o == Obs(disk, eng, 0, FALSE) IN
     CASE ep = "doctor" -> out' = CallEv(ep, "GET", NoArg, 200, <<200>>, DoctorAns, o)
-      [] ep = "handshake" -> out' = CallEv(ep, "GET", NoArg, 200, <<200>>, [k |-> "handshake", parsed |-> TRUE, managed |-> Managed], o)
+      [] ep = "handshake" -> out' = CallEv(ep, "GET", NoArg, 200, <<200>>, [k |-> "handshake", parsed |-> TRUE, managed |-> env.managed], o)
       [] OTHER ->
             LET w == IF ep = "discover" THEN "discover" ELSE "remedy" IN
             IF sf[w] = "absent" THEN out' = CallEv(ep, "GET", NoArg, 422, <<422>>, [parsed |-> FALSE], o)
@@ -192,7 +196,7 @@ ValidateFlows ==
     IN /\ eng' = e2
        /\ out' = CallEv("validate_flows", "POST", NoArg, IF okv THEN 200 ELSE 422, <<IF okv THEN 200 ELSE 422>>, [parsed |-> FALSE],
                         Obs(disk, e2, 0, FALSE))
-       /\ UNCHANGED <<disk, up, dead, lock, sf, fault, upd>>
+       /\ UNCHANGED <<env, disk, up, dead, lock, sf, fault, upd>>
 
 \* reloadFlows on tree d with engine e0 serving and refusal f armed: the possible [ok, eng, calls, hf, f2]
 ReloadOutcomes(d, e0, f) ==
@@ -206,12 +210,12 @@ LoadFlows(m) ==
         /\ eng' = r.eng /\ fault' = r.f2
         /\ out' = CallEv("load_flows", m, NoArg, IF r.ok THEN 200 ELSE 400, <<IF r.ok THEN 200 ELSE 400>>, [parsed |-> FALSE],
                          Obs(disk, r.eng, r.calls, r.hf))
-        /\ UNCHANGED <<disk, up, dead, lock, sf, upd>>
+        /\ UNCHANGED <<env, disk, up, dead, lock, sf, upd>>
 
 OnError(dec) ==
     /\ out' = CallEv("on_haproxy_error", "PUT", [NoArg EXCEPT !.decodable = dec, !.txns = IF dec THEN 1 ELSE 0],
                      IF dec THEN 200 ELSE 400, <<IF dec THEN 200 ELSE 400>>, [parsed |-> FALSE], Obs(disk, eng, 0, FALSE))
-    /\ UNCHANGED <<disk, eng, up, dead, lock, sf, fault, upd>>
+    /\ UNCHANGED <<env, disk, eng, up, dead, lock, sf, fault, upd>>
 
 (* ---- the update handlers as a process: lock, decode, backup, [clean], save, reload, [restore, reload], unlock *)
 TargetI(ep, d, pl) == IF ep = "apply_flows" THEN pl
@@ -221,12 +225,12 @@ TargetI(ep, d, pl) == IF ep = "apply_flows" THEN pl
 UpdateRefused(ep, pl) ==
     /\ upd.pc = "parked" /\ lock /\ ~NoLock
     /\ out' = CallEv(ep, "PUT", [NoArg EXCEPT !.payload = pl], 226, <<226>>, [parsed |-> FALSE], Obs(disk, eng, 0, FALSE))
-    /\ UNCHANGED <<disk, eng, up, dead, lock, sf, fault, upd>>
+    /\ UNCHANGED <<env, disk, eng, up, dead, lock, sf, fault, upd>>
 
 UpdateUndecodable(ep) ==
     /\ upd.pc = "idle"
     /\ out' = CallEv(ep, "PUT", [NoArg EXCEPT !.decodable = FALSE], 400, <<400>>, [parsed |-> FALSE], Obs(disk, eng, 0, FALSE))
-    /\ UNCHANGED <<disk, eng, up, dead, lock, sf, fault, upd>>
+    /\ UNCHANGED <<env, disk, eng, up, dead, lock, sf, fault, upd>>
 
 \* the handler starts: lock, decode, backup; gated = the executor will park it once (otherwise it runs through)
 UpdateBegin(ep, pl, gated) ==
@@ -237,7 +241,7 @@ UpdateBegin(ep, pl, gated) ==
                nStore |-> 0, nInit |-> 0, nPub |-> 0, second |-> FALSE,
                code |-> 0, codes |-> << >>, calls |-> 0, hf |-> FALSE, point |-> "", nth |-> 0]
     /\ out' = Tau
-    /\ UNCHANGED <<disk, eng, up, dead, sf, fault>>
+    /\ UNCHANGED <<env, disk, eng, up, dead, sf, fault>>
 
 Running == upd.pc \in {"run", "run2"}
 Signal(u, c) == [u EXCEPT !.code = IF u.code = 0 THEN c ELSE u.code, !.codes = Append(u.codes, c)]
@@ -245,7 +249,7 @@ Signal(u, c) == [u EXCEPT !.code = IF u.code = 0 THEN c ELSE u.code, !.codes = A
 UClean ==    \* CleanAll (every file of the tree goes; no yield point is used inside)
     /\ Running /\ upd.phase = "clean"
     /\ disk' = << >> /\ upd' = [upd EXCEPT !.phase = "save"]
-    /\ out' = Tau /\ UNCHANGED <<eng, up, dead, lock, sf, fault>>
+    /\ out' = Tau /\ UNCHANGED <<env, eng, up, dead, lock, sf, fault>>
 
 \* SavePayloadContentToDisk, one file at a time: the old file is removed, (yield point fs.store), the new one is created
 USaveRemove ==
@@ -253,13 +257,13 @@ USaveRemove ==
     /\ IF upd.todo = {} THEN upd' = [upd EXCEPT !.phase = "reload"] /\ disk' = disk
        ELSE \E q \in upd.todo : /\ disk' = [r \in (DOMAIN disk) \ {q} |-> disk[r]]
                                 /\ upd' = [upd EXCEPT !.cur = q, !.nStore = upd.nStore + 1]
-    /\ out' = Tau /\ UNCHANGED <<eng, up, dead, lock, sf, fault>>
+    /\ out' = Tau /\ UNCHANGED <<env, eng, up, dead, lock, sf, fault>>
 
 USaveCreate ==
     /\ Running /\ upd.phase = "save" /\ upd.cur # ""
     /\ disk' = [r \in (DOMAIN disk) \cup {upd.cur} |-> IF r = upd.cur THEN upd.pl[r] ELSE disk[r]]
     /\ upd' = [upd EXCEPT !.cur = "", !.todo = upd.todo \ {upd.cur}]
-    /\ out' = Tau /\ UNCHANGED <<eng, up, dead, lock, sf, fault>>
+    /\ out' = Tau /\ UNCHANGED <<env, eng, up, dead, lock, sf, fault>>
 
 UReload ==   \* reloadFlows: validate, build; (yield point hdm.initialized)
     /\ Running /\ upd.phase = "reload"
@@ -267,12 +271,12 @@ UReload ==   \* reloadFlows: validate, build; (yield point hdm.initialized)
        THEN upd' = IF upd.second THEN [upd EXCEPT !.phase = "done"]
                    ELSE Signal([upd EXCEPT !.phase = "restore"], 422)
        ELSE upd' = [upd EXCEPT !.phase = "built", !.nInit = upd.nInit + 1]
-    /\ out' = Tau /\ UNCHANGED <<disk, eng, up, dead, lock, sf, fault>>
+    /\ out' = Tau /\ UNCHANGED <<env, disk, eng, up, dead, lock, sf, fault>>
 
 UPublish ==  \* the new engine replaces the serving one; (yield point hdm.published)
     /\ Running /\ upd.phase = "built"
     /\ eng' = Initialize(disk, FALSE).loaded /\ upd' = [upd EXCEPT !.phase = "published", !.nPub = upd.nPub + 1]
-    /\ out' = Tau /\ UNCHANGED <<disk, up, dead, lock, sf, fault>>
+    /\ out' = Tau /\ UNCHANGED <<env, disk, up, dead, lock, sf, fault>>
 
 URegister ==
     /\ Running /\ upd.phase = "published"
@@ -281,30 +285,48 @@ URegister ==
           /\ upd' = IF upd.second THEN [upd EXCEPT !.phase = "done", !.calls = 1, !.hf = upd.hf \/ m.hf]
                     ELSE IF m.failed THEN Signal([upd EXCEPT !.phase = "restore", !.calls = 1, !.hf = m.hf], 422)
                     ELSE [upd EXCEPT !.phase = "done", !.calls = 1, !.hf = m.hf, !.code = 200, !.codes = <<200>>]
-    /\ out' = Tau /\ UNCHANGED <<disk, eng, up, dead, lock, sf>>
+    /\ out' = Tau /\ UNCHANGED <<env, disk, eng, up, dead, lock, sf>>
 
-URestore ==  \* Restore: the backed-up tree comes back; then the previous configuration is loaded again
+\* Restore: every file that differs from the backup gets its content back (removed, yield point fs.store, created), files
+\* that did not exist are removed; then the previous configuration is loaded again
+URestoreBegin ==
     /\ Running /\ upd.phase = "restore"
-    /\ disk' = IF RestoreSkipped THEN disk ELSE upd.bk
-    /\ upd' = [(IF upd.ep = "configuration" THEN Signal(upd, 500) ELSE upd) EXCEPT !.phase = "reload", !.second = TRUE]
-    /\ out' = Tau /\ UNCHANGED <<eng, up, dead, lock, sf, fault>>
+    /\ upd' = [(IF upd.ep = "configuration" THEN Signal(upd, 500) ELSE upd) EXCEPT
+                  !.phase = IF RestoreSkipped THEN "reload" ELSE "restoring", !.second = TRUE, !.cur = "",
+                  !.todo = {q \in (DOMAIN disk) \cup (DOMAIN upd.bk) : AtI(disk, q) # AtI(upd.bk, q)}]
+    /\ out' = Tau /\ UNCHANGED <<env, disk, eng, up, dead, lock, sf, fault>>
+
+URestoreRemove ==
+    /\ Running /\ upd.phase = "restoring" /\ upd.cur = ""
+    /\ IF upd.todo = {} THEN upd' = [upd EXCEPT !.phase = "reload"] /\ disk' = disk
+       ELSE \E q \in upd.todo :
+              /\ disk' = [r \in (DOMAIN disk) \ {q} |-> disk[r]]
+              /\ upd' = IF q \in DOMAIN upd.bk THEN [upd EXCEPT !.cur = q, !.nStore = upd.nStore + 1]
+                        ELSE [upd EXCEPT !.todo = upd.todo \ {q}]
+    /\ out' = Tau /\ UNCHANGED <<env, eng, up, dead, lock, sf, fault>>
+
+URestoreCreate ==
+    /\ Running /\ upd.phase = "restoring" /\ upd.cur # ""
+    /\ disk' = [r \in (DOMAIN disk) \cup {upd.cur} |-> IF r = upd.cur THEN upd.bk[r] ELSE disk[r]]
+    /\ upd' = [upd EXCEPT !.cur = "", !.todo = upd.todo \ {upd.cur}]
+    /\ out' = Tau /\ UNCHANGED <<env, eng, up, dead, lock, sf, fault>>
 
 \* the executor parks the update once, at the first occurrence of a yield point
-ParkPoint == IF upd.phase = "save" /\ upd.cur # "" THEN "fs.store"
+ParkPoint == IF upd.phase \in {"save", "restoring"} /\ upd.cur # "" THEN "fs.store"
              ELSE IF upd.phase = "built" THEN "hdm.initialized"
              ELSE IF upd.phase = "published" THEN "hdm.published" ELSE ""
-ParkNth == IF upd.phase = "save" THEN upd.nStore ELSE IF upd.phase = "built" THEN upd.nInit ELSE upd.nPub
+ParkNth == IF upd.phase \in {"save", "restoring"} THEN upd.nStore ELSE IF upd.phase = "built" THEN upd.nInit ELSE upd.nPub
 
 UPark ==
     /\ upd.pc = "run" /\ upd.mayPark /\ ParkPoint # ""
     /\ upd' = [upd EXCEPT !.pc = "parked", !.mayPark = FALSE, !.point = ParkPoint, !.nth = ParkNth]
     /\ out' = [ev |-> "begin", u |-> "A", ep |-> upd.ep, method |-> "PUT", arg |-> [NoArg EXCEPT !.payload = upd.pl], parked |-> TRUE,
                point |-> ParkPoint, nth |-> ParkNth, code |-> 0, obs |-> Obs(disk, eng, upd.calls, upd.hf)]
-    /\ UNCHANGED <<disk, eng, up, dead, lock, sf, fault>>
+    /\ UNCHANGED <<env, disk, eng, up, dead, lock, sf, fault>>
 
 UResume ==
     /\ upd.pc = "parked" /\ upd' = [upd EXCEPT !.pc = "run2"] /\ out' = [ev |-> "resume"]
-    /\ UNCHANGED <<disk, eng, up, dead, lock, sf, fault>>
+    /\ UNCHANGED <<env, disk, eng, up, dead, lock, sf, fault>>
 
 UDone ==     \* unlock, answer
     /\ Running /\ upd.phase = "done"
@@ -312,9 +334,10 @@ UDone ==     \* unlock, answer
     /\ LET o == Obs(disk, eng, upd.calls, upd.hf) IN
        out' = IF upd.pc = "run2" THEN [ev |-> "finish", u |-> "A", code |-> upd.code, codes |-> upd.codes, obs |-> o]
               ELSE CallEv(upd.ep, "PUT", [NoArg EXCEPT !.payload = upd.pl], upd.code, upd.codes, [parsed |-> FALSE], o)
-    /\ UNCHANGED <<disk, eng, up, dead, sf, fault>>
+    /\ UNCHANGED <<env, disk, eng, up, dead, sf, fault>>
 
-UStep == UClean \/ USaveRemove \/ USaveCreate \/ UReload \/ UPublish \/ URegister \/ URestore \/ UPark \/ UResume \/ UDone
+UStep == UClean \/ USaveRemove \/ USaveCreate \/ UReload \/ UPublish \/ URegister \/ URestoreBegin \/ URestoreRemove \/ URestoreCreate
+         \/ UPark \/ UResume \/ UDone
 
 \* with the lock removed a second update runs while the first is parked: modelled as the whole second update in one step
 UpdateUnlocked(ep, pl) ==
@@ -324,14 +347,14 @@ UpdateUnlocked(ep, pl) ==
           /\ eng' = r.eng /\ fault' = r.f2 /\ disk' = IF r.ok THEN tgt ELSE disk
           /\ out' = CallEv(ep, "PUT", [NoArg EXCEPT !.payload = pl], IF r.ok THEN 200 ELSE 422, <<IF r.ok THEN 200 ELSE 422>>, [parsed |-> FALSE],
                            Obs(disk', r.eng, r.calls, r.hf))
-    /\ UNCHANGED <<up, dead, lock, sf, upd>>
+    /\ UNCHANGED <<env, up, dead, lock, sf, upd>>
 
 (* ------------------------------------------------------------------ policy mode *)
 ValidatePolicies ==
     LET okv == ParsePolicies(disk.pol).ok IN
     /\ out' = CallEv("validate_policies", "POST", NoArg, IF okv THEN 200 ELSE 422, <<IF okv THEN 200 ELSE 422>>, [parsed |-> FALSE],
                      Obs(disk, eng, 0, FALSE))
-    /\ UNCHANGED <<disk, eng, up, dead, lock, sf, fault, upd>>
+    /\ UNCHANGED <<env, disk, eng, up, dead, lock, sf, fault, upd>>
 
 PolOut(ok, d2, e2, calls, hf, f2) == [ok |-> ok, disk |-> d2, eng |-> e2, calls |-> calls, hf |-> hf, f2 |-> f2]
 
@@ -363,7 +386,7 @@ PolCall(ep, body, outs) ==
         /\ disk' = r.disk /\ eng' = r.eng /\ fault' = r.f2
         /\ out' = CallEv(ep, "POST", [NoArg EXCEPT !.body = body], IF r.ok THEN 200 ELSE 422, <<IF r.ok THEN 200 ELSE 422>>, [parsed |-> FALSE],
                          Obs(r.disk, r.eng, r.calls, r.hf))
-        /\ UNCHANGED <<up, dead, lock, sf, upd>>
+        /\ UNCHANGED <<env, up, dead, lock, sf, upd>>
 
 ApplyPolicies(body) == PolCall("apply_policies", body, ApplyOutcomes(body))
 Revert(free) == PolCall(IF free THEN "revert_to_diagnosis_free" ELSE "revert_to_last_loaded", "", RevertOutcomes(free))
@@ -371,7 +394,7 @@ Revert(free) == PolCall(IF free THEN "revert_to_diagnosis_free" ELSE "revert_to_
 (* ------------------------------------------------------------------ the mux *)
 Reply(ep, m, arg, code) ==
     /\ out' = CallEv(ep, m, arg, code, <<code>>, [parsed |-> FALSE], Obs(disk, eng, 0, FALSE))
-    /\ UNCHANGED <<disk, eng, up, dead, lock, sf, fault, upd>>
+    /\ UNCHANGED <<env, disk, eng, up, dead, lock, sf, fault, upd>>
 
 \* one request that is answered within a single step (everything but a running update)
 Call(ep, m, arg) ==
@@ -381,7 +404,7 @@ Call(ep, m, arg) ==
             THEN (IF NoLock THEN UpdateUnlocked(ep, arg.payload) ELSE UpdateRefused(ep, arg.payload))     \* TryLock comes first
        ELSE IF m # Registered[ep] THEN
             (IF GetReloads /\ ep = "load_flows" /\ m = "GET" /\ upd.pc = "idle" THEN LoadFlows("GET") ELSE Reply(ep, m, arg, 405))
-       ELSE CASE ep \in DOMAIN CommonR -> Get(ep) /\ UNCHANGED <<disk, eng, up, dead, lock, sf, fault, upd>>
+       ELSE CASE ep \in DOMAIN CommonR -> Get(ep) /\ UNCHANGED <<env, disk, eng, up, dead, lock, sf, fault, upd>>
               [] Mode = "flows" /\ ep \in DOMAIN PolicyR -> Reply(ep, m, arg, 200)          \* only with PolicyRoutesInFlows
               [] ep = "validate_flows" -> ValidateFlows
               [] ep = "load_flows" -> upd.pc = "idle" /\ LoadFlows("POST")
